@@ -1,5 +1,6 @@
 import OnetVerif.Model.C05
 import OnetVerif.Props.C04Gen
+import OnetVerif.Gen.C05
 /-! Property C05 — the tie of the aggregation step of `Model/C05Agg.lean` to the Go source.  `TreeNodeInstance.aggregate`
 is translated from `treenode.go` on every check run (`Gen/C04.lean`, `Gen.C04.TreeNodeInstance_aggregate`) and proved
 equal to the hand model `C04.aggregate` in `Props/C04Gen.lean` (`C04.c04_gen_aggregate_eq`, imported here so that this
@@ -82,4 +83,23 @@ theorem c05_gen_aggregate_is_translated (n : Gen.C04.TreeNodeInstance) (hq : n.m
   exact ⟨msgs, due, n', h1, h4⟩
 
 end Agg
+end C05
+
+namespace C05
+namespace Chan
+
+/-- **the look at `closing` in `dispatchChannel` is the model's**: `Gen.C05.dispatchChannel_sends` is the condition of the
+`if` that guards `out.Send(m)` (regenerated from `treenode.go` on every run, over the local `closing` read under the
+queue mutex); with room in the channel, the reader's step on a popped channel message sends exactly when it says so,
+and otherwise records the message as `late`. -/
+theorem c05_gen_channel_send_decision (s : St) (m : Nat) (hp : s.pc = .sending m) (hroom : s.chan.length < s.cap) :
+    Gen.C05.dispatchChannel_sends s.closing = !s.closing ∧
+    step s .reader = some (if Gen.C05.dispatchChannel_sends s.closing
+      then { s with pc := .top, chan := s.chan ++ [m], log := s.log ++ [(m, .put)] }
+      else { s with pc := .top, log := s.log ++ [(m, .late)] }) := by
+  refine ⟨rfl, ?_⟩
+  simp only [step, hp, hroom, if_true, Gen.C05.dispatchChannel_sends]
+  cases s.closing <;> simp
+
+end Chan
 end C05
